@@ -5,4 +5,5 @@ GenPatterns == << <<[t |-> "part", p |-> "pycalver"]>>, <<[t |-> "part", p |-> "
 GenDays == {737791, 738000}
 GenBids == {<<48,48,48,49>>, <<48,57,57,57>>}
 GenTags == {"final", "beta"}
+GenDerived == << <<[t |-> "part", p |-> "pep440_pycalver"]>> >>
 ====
